@@ -122,7 +122,14 @@ def main():
     mpo = soft_section(enc, r"pub fn max_partition_order\(self", 600)
     items.append(("max_partition_order", data_int(repo, "max_partition_order", mpo, r"0\.\.=([^,;{}\n]+?) => Ok\(", "max_partition_order range"), "15"))
     # Encoder::new: sample rate and channel ranges
-    newf = section(enc, r"fn new\(\s*(?:mut )?\w+: W,\s*(?:mut )?\w+: Options,", "Encoder::new", 5000)
+    newf = None
+    for m_new in re.finditer(r"fn new\(\s*(?:mut )?\w+: W,\s*(?:mut )?\w+: Options,", enc):
+        cand = enc[m_new.start():m_new.start() + 5000]
+        if "OptionalBlockType::VorbisComment =>" in cand:        # Encoder::new is the constructor that sorts the blocks
+            newf = cand
+            break
+    if newf is None:
+        fail("Encoder::new")
     items.append(("sample_rate_bound", data_int(repo, "sample_rate_bound", newf, r"sample_rate: \(0\.\.([^=,;{}()\n]+?)\)", "Encoder::new sample-rate range"), "1048576"))
     items.append(("min_channels", data_int(repo, "min_channels", newf, r"channels: \(([^.,;{}()\n]+?)\.\.=([^,;{}()\n]+?)\)", "Encoder::new channel range (lower)", 1), "1"))
     items.append(("max_channels", data_int(repo, "max_channels", newf, r"channels: \(([^.,;{}()\n]+?)\.\.=([^,;{}()\n]+?)\)", "Encoder::new channel range (upper)", 2), "8"))
